@@ -111,3 +111,110 @@ def labels_of(d):
 
 def size_of(d):
     return len(leaves_of(d))
+
+
+# ------------------------------------------------------------------ arbitrary well-formed trees
+EN_BINARY_LABELS = [('fa', '>'), ('ba', '<'), ('fc', '>B'), ('bx', '<B'), ('gfc', '>B'), ('gbx', '<B'),
+                    ('conj', '<Φ>'), ('lp', '<lp>'), ('rp', '<rp>'), ('lp', '<*>')]
+EN_UNARY_LABELS = [('lex', '<un>'), ('tr', '<un>')]
+JA_BINARY_LABELS = [('fa', '>'), ('ba', '<'), ('fc', '>B'), ('bx', '<B1'), ('bx', '<B2'), ('bx', '<B3'), ('bx', '<B4'),
+                    ('fx', '>Bx1'), ('fx', '>Bx2'), ('fx', '>Bx3'), ('other', 'SSEQ')]
+JA_UNARY_LABELS = [('ADNext', 'ADNext'), ('ADNint', 'ADNint'), ('ADV0', 'ADV0'), ('ADV1', 'ADV1'), ('ADV2', 'ADV2'),
+                   ('OTHER', 'OTHER')]
+
+
+def t_arbitrary(t, system, max_leaves=6, depth=4):
+    """random shape, random categories, labels from the label vocabulary, either head direction"""
+    from vlib import gen_cat
+    budget = [t.int(1, max_leaves)]
+    bl = EN_BINARY_LABELS if system == 'en' else JA_BINARY_LABELS
+    ul = EN_UNARY_LABELS if system == 'en' else JA_UNARY_LABELS
+
+    def cat():
+        return gen_cat.t_cat(t, system, depth=t.pick([0, 1, 1, 2]), bar=False)
+
+    def grow(d, top):
+        k = t.weighted([(3, 'leaf'), (5, 'bin'), (2, 'un')])
+        if k == 'bin' and budget[0] >= 2 and d > 0:
+            budget[0] -= 1
+            lab, sym = t.pick(bl)
+            return ('B', cat(), grow(d - 1, False), grow(d - 1, False), lab, sym, t.chance(128))
+        if k == 'un' and d > 0 and not top:
+            lab, sym = t.pick(ul)
+            return ('U', cat(), grow(d - 1, False), lab, sym)
+        return ('L', cat())
+    return grow(depth, True)
+
+
+def build_tree(d, tokens):
+    """real depccg Tree from a derivation model and a list of Token objects (consumed left to right)"""
+    from depccg.tree import Tree
+    it = iter(tokens)
+
+    def rec(x):
+        if x[0] == 'L':
+            return Tree.make_terminal(next(it), to_cat(x[1]))
+        if x[0] == 'U':
+            return Tree.make_unary(to_cat(x[1]), rec(x[2]), x[3], x[4])
+        left = rec(x[2])
+        right = rec(x[3])
+        return Tree.make_binary(to_cat(x[1]), left, right, x[4], x[5], x[6])
+    return rec(d)
+
+
+def deriv_json(d):
+    from vlib.model_cat import jsonable
+    if d[0] == 'L':
+        return ['L', jsonable(d[1])]
+    if d[0] == 'U':
+        return ['U', jsonable(d[1]), deriv_json(d[2]), d[3], d[4]]
+    return ['B', jsonable(d[1]), deriv_json(d[2]), deriv_json(d[3]), d[4], d[5], d[6]]
+
+
+def deriv_from_json(j):
+    from vlib.model_cat import from_json
+    if j[0] == 'L':
+        return ('L', from_json(j[1]))
+    if j[0] == 'U':
+        return ('U', from_json(j[1]), deriv_from_json(j[2]), j[3], j[4])
+    return ('B', from_json(j[1]), deriv_from_json(j[2]), deriv_from_json(j[3]), j[4], j[5], bool(j[6]))
+
+
+def has_unary(d):
+    return d[0] == 'U' or (d[0] == 'B' and (has_unary(d[2]) or has_unary(d[3]))) or (d[0] == 'U' and has_unary(d[2]))
+
+
+def has_right_headed(d):
+    if d[0] == 'L':
+        return False
+    if d[0] == 'U':
+        return has_right_headed(d[2])
+    return (not d[6]) or has_right_headed(d[2]) or has_right_headed(d[3])
+
+
+def n_binary(d):
+    if d[0] == 'L':
+        return 0
+    if d[0] == 'U':
+        return n_binary(d[2])
+    return 1 + n_binary(d[2]) + n_binary(d[3])
+
+
+def t_tree_case(t, system=None, licensed=None, max_leaves=6, tok_exclude='', ja_tokens=None):
+    """a derivation + tokens, JSON-able: {'system', 'licensed', 'deriv', 'tokens'}"""
+    from vlib import gen_tok
+    system = system or t.pick(['en', 'en', 'ja'])
+    licensed = t.chance(128) if licensed is None else licensed
+    if licensed:
+        d = t_derivation(t, rule_index(system), max_leaves=max_leaves)
+    else:
+        d = t_arbitrary(t, system, max_leaves=max_leaves)
+    n = size_of(d)
+    use_ja_tokens = (system == 'ja') if ja_tokens is None else ja_tokens
+    toks = [(gen_tok.t_token_ja if use_ja_tokens else gen_tok.t_token_en)(t, tok_exclude) for _ in range(n)]
+    return {'system': system, 'licensed': bool(licensed), 'deriv': deriv_json(d), 'tokens': toks}
+
+
+def tree_of_case(case):
+    from vlib import gen_tok
+    return build_tree(deriv_from_json(case['deriv']), [gen_tok.make_token(tk) for tk in case['tokens']])
